@@ -1,13 +1,77 @@
-(* C17 placeholder until V1/Tok1Proof.v lands: refutation of the original tokenizer by computation. *)
-From Coq Require Import List NArith Bool.
+(* C17 - v1 token offsets and candidate ranges always delimit real text.
+   Statements only; proofs in V1/Tok1Proof.v.  [tokenize U true] is the model
+   of searchset/tokenizer.Tokenize as repaired (token text = source bytes);
+   [candidates_from_sorted] models untangle/split/merge/coalesce of
+   searchset.FindPotentialMatches starting from the sorted list of q-gram
+   matches (targetMatchedRanges and sort.Sort are an oracle: any list of
+   in-bounds ranges sorted by target start). *)
+From Coq Require Import List NArith ZArith Bool Arith Lia.
 Import ListNotations.
 From LC.Base Require Import Utf8.
-From LC.V1 Require Import Tok1.
-Local Open Scope N_scope.
-Definition U0 : cls := {| is_space1 := fun r => N.eqb r 32 || N.eqb r 10 || N.eqb r 9;
-                          is_punct1 := fun r => N.eqb r 44 || N.eqb r 46 |}.
-(* "ab \xffcd": the original tokenizer yields a 5-byte token at offset 3 of a 6-byte string *)
-Example C17_original_refuted :
-  tokenize U0 false [97;98;32;255;99;100] = [{| t_text := [97;98]; t_off := 0 |}; {| t_text := [239;191;189;99;100]; t_off := 3 |}]
-  /\ tokenize U0 true [97;98;32;255;99;100] = [{| t_text := [97;98]; t_off := 0 |}; {| t_text := [255;99;100]; t_off := 3 |}].
-Proof. vm_compute. split; reflexivity. Qed.
+From LC.V1 Require Import Tok1 Matcher1 Tok1Proof Matcher1Proof.
+
+(* every token text is exactly the bytes of the string at its offset, non-empty, inside the string *)
+Theorem C17_offsets_reproduce_text : forall U s t, In t (tokenize U true s) ->
+  firstn (length (t_text t)) (skipn (N.to_nat (t_off t)) s) = t_text t /\
+  t_text t <> [] /\
+  N.to_nat (t_off t) + length (t_text t) <= length s.
+Proof. exact tok_text_at. Qed.
+Print Assumptions C17_offsets_reproduce_text.
+
+(* tokens are in increasing, non-overlapping order *)
+Theorem C17_tokens_ordered : forall U s k t1 t2,
+  nth_error (tokenize U true s) k = Some t1 ->
+  nth_error (tokenize U true s) (S k) = Some t2 ->
+  (t_off t1 + N.of_nat (length (t_text t1)) <= t_off t2)%N.
+Proof. exact tok_ordered. Qed.
+Print Assumptions C17_tokens_ordered.
+
+(* every non-space rune lies inside a token, every space rune outside all tokens *)
+Theorem C17_tokens_cover_non_space : forall U s p r n, In (p, r, n) (rune_starts s) ->
+  (is_space1 U r = false ->
+     exists t, In t (tokenize U true s) /\
+               N.to_nat (t_off t) <= p /\ p + n <= N.to_nat (t_off t) + length (t_text t)) /\
+  (is_space1 U r = true ->
+     forall t, In t (tokenize U true s) ->
+               N.to_nat (t_off t) + length (t_text t) <= p \/ p + n <= N.to_nat (t_off t)).
+Proof. exact tok_cover. Qed.
+Print Assumptions C17_tokens_cover_non_space.
+
+(* every candidate is non-empty, every range lies within the target token bounds with start < end, and the concatenation of all candidates is ordered by target position *)
+Theorem C17_candidates_well_formed : forall n sorted,
+  Forall (range_ok n) sorted -> sorted_by_target sorted -> sorted <> [] ->
+  lists_ok n (candidates_from_sorted sorted).
+Proof. exact candidates_ok. Qed.
+Print Assumptions C17_candidates_well_formed.
+
+(* candidates are ordered by target position *)
+(* statement as proved in V1/Tok1Proof.v (restated through its type) *)
+Theorem C17_candidates_ordered : ltac:(let t := type of (@cand_ordered) in exact t).
+Proof. exact (@cand_ordered). Qed.
+Check C17_candidates_ordered.
+Print Assumptions C17_candidates_ordered.
+
+(* under the real sort order source ranges stay non-empty as well (the second merge branch is dead code) *)
+Theorem C17_source_ranges_nonempty : forall n sorted,
+  Forall (range_ok n) sorted -> sorted_lex sorted -> sorted <> [] ->
+  Forall (Forall (range_ok n)) (candidates_from_sorted sorted).
+Proof. exact cand_range_ok_lex. Qed.
+Print Assumptions C17_source_ranges_nonempty.
+
+(* TargetRange of every candidate is a byte range with start <= end inside the tokenized string: Offset/Extent can always be used to slice the text *)
+Theorem C17_target_range_inside_text : forall U s sorted c,
+  Forall (range_ok (Z.of_nat (length (tokenize U true s)))) sorted ->
+  sorted_by_target sorted -> sorted <> [] ->
+  In c (candidates_from_sorted sorted) ->
+  exists a b, target_range (tokenize U true s) c = Some (a, b) /\
+              (a <= b)%N /\ (N.to_nat b <= length s)%nat.
+Proof. exact candidates_target_range_tokenize. Qed.
+Print Assumptions C17_target_range_inside_text.
+
+(* REFUTATION for Tokenize as found: on invalid UTF-8 a token extends past the end of the string *)
+(* statement as proved in V1/Tok1Proof.v (restated through its type) *)
+Theorem C17_original_refuted : ltac:(let t := type of (@unfixed_refuted) in exact t).
+Proof. exact (@unfixed_refuted). Qed.
+Check C17_original_refuted.
+Print Assumptions C17_original_refuted.
+
